@@ -675,4 +675,6 @@ def rule_cover(ctx):
 rule_memorder = layout.make_rule("R-C07-memorder", "raw memory-order buffers (as_slice_memory_order, into_raw_vec, as_ptr) of stored point batches are used by position only behind an is_standard_layout() test", lambda f: f["d"]["krate"] == "linfa_nn", "linfa-nn")
 
 def rules(tier):
-    return [rule_unit, rule_sib, rule_edge, rule_degree, rule_memorder, rule_cover, rule_direct]
+    from . import precision
+    return [rule_unit, rule_sib, rule_edge, rule_degree, rule_memorder, rule_cover, rule_direct,
+            precision.make_rule("R-C07-precision", lambda f: f["d"]["krate"] == "linfa_nn", 30, "linfa-nn")]
